@@ -28,6 +28,7 @@ if "--apply" in args:
         if r["rc"] not in (0, 1):
             print("skipped (no verdict):", seed, r)
             continue
+        m.setdefault("first_pass_caught_by", list(m.get("caught_by", [])))   # what the machinery caught before it was strengthened
         # same bookkeeping as tools/seed_eval.py: the latest outcome per check, caught_by derived from it
         m.setdefault("checks", {})[m["breaks_property"]] = {"rc": r["rc"], "violations": r["buckets"], "first": "", "wall_s": None,
                                                             "rechecked_at_verif_commit": r.get("verif_commit")}
